@@ -7,6 +7,7 @@ package c07
 import (
 	"fmt"
 	"reflect"
+	"sort"
 	"strings"
 	"testing"
 
@@ -186,6 +187,40 @@ func check(c *pbt.Case, r *pbt.R) {
 	if _, err := gen.Visible(c.Spec, e); err != nil {
 		r.Failf("model and implementation disagree on the layer structure", "%v", err)
 	}
+	// (i') A hidden error contributes nothing to Is: e matches exactly
+	// the references that one of its *visible* layers matches (by
+	// identity, by its own Is method, or by equal mark - for a Mark layer
+	// the mark of the reference's outermost layer, nothing deeper).
+	if vis, err := gen.Visible(c.Spec, e); err == nil {
+		pool := map[string][]gen.VNode{}
+		for _, h := range hs {
+			if vs, err := gen.RefsOf(h.spec); err == nil {
+				pool["copy of a node hidden by "+h.how] = append(pool["copy of a node hidden by "+h.how], vs...)
+			}
+		}
+		for _, n := range gen.SentinelNames {
+			vs, _ := gen.RefsOf(&gen.Spec{K: "sentinel", S: []string{n}})
+			pool["sentinel"] = append(pool["sentinel"], vs[0])
+		}
+		var froms []string
+		for from := range pool {
+			froms = append(froms, from)
+		}
+		sort.Strings(froms)
+		for _, from := range froms {
+			for _, rv := range pool[from] {
+				got, p := obs.SafeIs(e, rv.Obj)
+				if p != nil {
+					continue
+				}
+				if want := gen.ModelIs(vis, rv, true); got != want {
+					r.Failf(fmt.Sprintf("Is on an error with hidden parts is not decided by its visible layers alone: Is=%v", got),
+						"reference: %s, %s layer %d (%s) text %q\nspec %s", from, rv.Ls[0].Spec, rv.I, rv.Layer().Typ, rv.Text(), c.Spec)
+				}
+			}
+		}
+	}
+
 	// (iii) Handled keeps the hidden text, the WithMessage variants replace it.
 	for _, n := range c.Spec.Nodes() {
 		if !gen.IsBarrierKind(n.K) {
@@ -294,19 +329,44 @@ func check(c *pbt.Case, r *pbt.R) {
 		}
 	}
 
-	// (iv) the hidden error remains fully visible in %+v.
-	out := fmt.Sprintf("%+v", errors.Formattable(e))
-	toks := map[string]bool{}
-	for _, tk := range gen.Tokens(out) {
-		toks[tk] = true
+	// (iv) the hidden error remains fully visible in %+v, locally and
+	// after transfer: the text of every node of a hidden sub-tree
+	// (hidden parts of hidden parts included; of a Mark reference only
+	// the mark is kept).
+	var shown []*gen.Spec
+	var collect func(n *gen.Spec)
+	collect = func(n *gen.Spec) {
+		if n == nil {
+			return
+		}
+		shown = append(shown, n)
+		collect(n.C)
+		if n.K != "mark" {
+			for _, x := range n.X {
+				collect(x)
+			}
+		}
 	}
 	for _, h := range hs {
-		if h.how == "mark" {
-			continue // only the reference's mark is kept
+		if h.how != "mark" {
+			collect(h.spec)
 		}
-		for _, tk := range gen.Tokens(gen.Build(h.spec).Error()) {
-			if !toks[tk] {
-				r.Failf("the hidden error's text is not visible in %+v: "+h.how, "token %s\nspec %s\n%s", tk, c.Spec, out)
+	}
+	xv := e
+	for hop := 0; hop <= c.Int("hops"); hop++ {
+		if hop > 0 {
+			xv, _ = wire.Hop(xv)
+		}
+		out := fmt.Sprintf("%+v", errors.Formattable(xv))
+		toks := map[string]bool{}
+		for _, tk := range gen.Tokens(out) {
+			toks[tk] = true
+		}
+		for _, n := range shown {
+			for _, tk := range gen.Tokens(b.Of[n].Error()) {
+				if !toks[tk] {
+					r.Failf("the text of a hidden error is not visible in %+v"+map[bool]string{false: "", true: " after transfer"}[hop > 0], "token %s of hidden node %s\nspec %s\n%s", tk, n.K, c.Spec, out)
+				}
 			}
 		}
 	}
